@@ -166,10 +166,13 @@ def check_acceptance(t, vehicle, text):
     return None
 
 
+NO_TEXT_VALUES = ['x', 'some text', '1', ' ', 0, 0.0, 1, 1.5, False, True, [], ['x'], {}, 0j]
+
+
 def check_no_text(el, v):
     s = schema()
     t = s.element_type[el]
-    inp = {'side': 'no-text', 'element': el, 'value': v}
+    inp = {'side': 'no-text', 'element': el, 'value': v if isinstance(v, (str, int, float, bool, list, dict)) else repr(v)}
     r = call(cls_for(el), v)
     if r.ok:
         return F('text-accepted-on-type-without-character-content', t, inp, 'constructor accepted %r' % v, 'raises')
@@ -298,7 +301,7 @@ def run_shard(ctx, shard, acc):
         return
     if shard['mode'] == 'no-text':
         for el in shard['elements']:
-            for v in ('x', 'some text', '1', ' '):
+            for v in NO_TEXT_VALUES:
                 acc.case({'side': 'no-text', 'element': el, 'value': v}, True, 0)
                 acc.count('no-text')
                 f = check_no_text(el, v)
